@@ -171,7 +171,7 @@ def run_case(case):
             got = T.canon_vars(["c", "t", outs[:5]], {})
         if got != exp:
             kfc = ""
-            if route in ("fact-head", "rule-head") and (_has_negint(a) or _has_negint(b)):
+            if route in ("fact-head", "rule-head", "eq") and (_has_negint(a) or _has_negint(b)):
                 kfc = "|negative-int-constant"
             elif route in ("fact-head", "rule-head") and U.repeated_vars_both(T.tup(a), T.tup(b)):
                 kfc = "|repeated-head-and-call-vars"
